@@ -149,6 +149,28 @@ func newC10Env(scheme string, cache bool, state string, rng *rand.Rand, kauri bo
 	case "timedout": // R's timer fired twice
 		e.r.FireTimeout()
 		e.r.FireTimeout()
+	case "advanced": // R entered a new view on a timeout certificate and has not voted in it: it can vote now
+		cur := e.r.VS.View()
+		var tms []hotstuff.TimeoutMsg
+		gqc := hotstuff.NewQuorumCert(nil, 0, g.Hash())
+		for _, x := range nodes[:e.q] {
+			tm := hotstuff.TimeoutMsg{ID: x.ID, View: cur, SyncInfo: hotstuff.NewSyncInfoWith(gqc)}
+			tm.ViewSignature, _ = x.Auth.Sign(cur.ToBytes())
+			tm.MsgSignature, _ = x.Auth.Sign(tm.ToBytes())
+			tms = append(tms, tm)
+		}
+		if tc, err := nodes[0].Auth.CreateTimeoutCert(cur, tms); err == nil {
+			si := hotstuff.NewSyncInfoWith(tc)
+			if agg {
+				if a, err := nodes[0].Auth.CreateAggregateQC(cur, tms); err == nil {
+					si.SetAggQC(a)
+				}
+			}
+			e.r.Deliver(hotstuff.NewViewMsg{ID: 1, SyncInfo: si, FromNetwork: true})
+		}
+		if e.r.VS.View() == cur || e.r.Voter.VerifLastVotedView() >= e.r.VS.View() {
+			return nil, fmt.Errorf("c10: state \"advanced\" not reached (view %d, last voted %d)", e.r.VS.View(), e.r.Voter.VerifLastVotedView())
+		}
 	}
 	e.r.TakeOut()
 	return e, nil
@@ -475,7 +497,7 @@ func c10(args []string) error {
 		cs = append(cs, c)
 	}
 	f.Close()
-	states := []string{"fresh", "midrun", "timedout"}
+	states := []string{"fresh", "midrun", "timedout", "advanced"}
 	for _, cfg := range splitComma(*configs) {
 		parts := []string{}
 		cur := ""
@@ -511,7 +533,10 @@ func c10(args []string) error {
 		for k, i := range idx {
 			c := cs[i]
 			kauri := c.M["rpc"].(string) == "contribution"
-			state := states[k%3]
+			state := states[k%len(states)]
+			if c.M["rpc"].(string) == "propose" && k%2 == 0 {
+				state = "advanced" // the only state in which a proposal can get past the first checks of the voter: half of them meet it
+			}
 			// a fresh replica regularly, after a panic, and when the communication scheme has to change
 			if env == nil || sinceNew > 150 || env.state != state || kauri != (env.r.Kauri != nil) {
 				if env != nil {
